@@ -343,6 +343,11 @@ def rule_f(R, ctx, rid="C01.f"):
         ok, cex, keys = truth_check(f, classify, req(pred), max_atoms=14)
         # every named atom the predicate needs must occur, otherwise `named.get(x, False)` would hide a dropped test
         have = {classify(k, ats[k]).lstrip("!") for k in ats if classify(k, ats[k])}
+        from ylib.formula import depends_on
+        gone = sorted(depends_on(lambda n: pred({x: n.get(x, False) for x in NAMES}), [x for x in NAMES if x != "HS"]) - have)
+        if gone:
+            ok = False
+            cex = "the decision no longer tests %s" % gone
         R.ob(rid, fn, site, ok and not free,
              "%s: path formula over %s equals the YATA rule" % (what, sorted(have)) if ok and not free else
              "%s deviates from the YATA rule: %s%s; formula = %s" %
